@@ -653,6 +653,19 @@ pub fn r_judge(case: &RCase, o: &ROutcome) -> Vec<(String, String)> {
             }
         }
     }
+    // ... and neither does the loss of the connection (a peer's application close, a timeout): a later poll must not
+    // present the stream as cleanly ended
+    if !stopped && !matches!(case.end, "reset" | "fin" | "open") && o.terminal != "eof" && o.terminal != "pending" {
+        for (i, a) in o.after_terminal.iter().enumerate() {
+            if a == "eof" {
+                out.push((
+                    "C17:read:connection-error-forgotten-on-a-later-poll:got=eof".to_string(),
+                    format!("{ctx}: poll_data reported {}; poll #{} after that answered a clean end of stream", o.terminal, i + 1),
+                ));
+                break;
+            }
+        }
+    }
     // whatever Quinn answered as the end of the stream is what the adapter reports - also when a deferred
     // stop_sending is applied at that very moment (its failure must not replace the outcome of the read)
     if o.terminal != "pending" {
@@ -850,7 +863,7 @@ fn run(tier: Tier, seed: u64) -> i32 {
     let _ = &mut rep;
     rep.exhaustive = true;
     rep.rule = format!(
-        "the unmodified adapter source over the fakequinn stand-in. write path: frame sequences with payloads from {{0, 1, 5 bytes}} up to 3 frames, one 256 KiB frame, framed (send_data/poll_ready) and unframed (poll_send), on uni and bidi streams, an overlapping send_data inserted after every send_data, and one write fault of {{Stopped(c), ConnectionLost(ApplicationClosed(c)), ConnectionLost(TimedOut), ConnectionLost(Reset), ClosedStream, ZeroRttRejected}} from the k-th poll_write on (k = 0..4, c in {{0, 0x10c, 2^62-1}}), under EVERY poll_write answer sequence with <= {bound} deviations (accept 1 / half / n-1 bytes, Pending). read path: data of {{0, 1, 5, 40}} bytes x ending {{FIN, Reset(c), ConnectionLost(ApplicationClosed(c)), ConnectionLost(TimedOut), ConnectionLost(Reset), ClosedStream, open}} under every read_chunk answer sequence with <= {bound} deviations (chunk cuts, Pending), uni and bidi, with every operation sequence of length <= 3 over {{poll_data, recv_id, stop_sending(c)}} before the drain (identifier queries and stop_sending in every state: fresh, read pending, read completed, after FIN, after an error). Connection-level: all 8 ConnectionError variants x 3 codes on accept/open (connection and opener) and both datagram paths; close(code, reason); datagram bytes. After the terminal answer of a read poll_data is called twice more (a peer's reset must not turn into a clean end of stream). After a failed write one more send_data/poll_ready is issued, then reset(code); after a complete write poll_finish. poll_send: the count returned equals the bytes taken out of the caller's buffer, and nothing is taken when the answer is Pending. Oracle: bytes seen by the stand-in = reference encoding of the buffers whose write completed (a prefix on error), ids constant, no panic, error classes and codes preserved - also on the write after the failed one (a stream-scoped STOP_SENDING never becomes a connection-level error). states = distinct (case, answer sequence) outcomes; non-trivial = executions with a deviation."
+        "the unmodified adapter source over the fakequinn stand-in. write path: frame sequences with payloads from {{0, 1, 5 bytes}} up to 3 frames, one 256 KiB frame, framed (send_data/poll_ready) and unframed (poll_send), on uni and bidi streams, an overlapping send_data inserted after every send_data, and one write fault of {{Stopped(c), ConnectionLost(ApplicationClosed(c)), ConnectionLost(TimedOut), ConnectionLost(Reset), ClosedStream, ZeroRttRejected}} from the k-th poll_write on (k = 0..4, c in {{0, 0x10c, 2^62-1}}), under EVERY poll_write answer sequence with <= {bound} deviations (accept 1 / half / n-1 bytes, Pending). read path: data of {{0, 1, 5, 40}} bytes x ending {{FIN, Reset(c), ConnectionLost(ApplicationClosed(c)), ConnectionLost(TimedOut), ConnectionLost(Reset), ClosedStream, open}} under every read_chunk answer sequence with <= {bound} deviations (chunk cuts, Pending), uni and bidi, with every operation sequence of length <= 3 over {{poll_data, recv_id, stop_sending(c)}} before the drain (identifier queries and stop_sending in every state: fresh, read pending, read completed, after FIN, after an error). Connection-level: all 8 ConnectionError variants x 3 codes on accept/open (connection and opener) and both datagram paths; close(code, reason); datagram bytes. After the terminal answer of a read poll_data is called twice more (neither a peer's reset nor the loss of the connection may turn into a clean end of stream). After a failed write one more send_data/poll_ready is issued, then reset(code); after a complete write poll_finish. poll_send: the count returned equals the bytes taken out of the caller's buffer, and nothing is taken when the answer is Pending. Oracle: bytes seen by the stand-in = reference encoding of the buffers whose write completed (a prefix on error), ids constant, no panic, error classes and codes preserved - also on the write after the failed one (a stream-scoped STOP_SENDING never becomes a connection-level error). states = distinct (case, answer sequence) outcomes; non-trivial = executions with a deviation."
     );
     rep.assumptions = vec![
         "fakequinn models the quinn 0.11 API subset the adapter uses; its answer alphabet is bound to real Quinn by the quinnreal conformance runs (accepted sizes and error variants observed on loopback lie inside the alphabet)".into(),
